@@ -420,7 +420,7 @@ def engine(run, tier, pid, opts, mc_which, sample=None, extra_kinds=()):
     if "cli" in extra_kinds:
         from harness import cli_engine
         jobs = [{"root": str(run.sub("cli")), "cfg": c, "buf": b, "tid": tid + k} for k, (c, b) in
-                enumerate([(c, b) for c in ("single", "multi", "twohap") for b in (16, 64, 250000)])]
+                enumerate([(c, b) for c in ("single", "multi", "twohap") for b in (7, 64, 250000)])]
         traces += [r["file"] for r in C.pmap("harness.cli_engine", "cli_fasta_case", jobs, chunk=1)]
     jr = C.judge("FastaTrace", traces, run.dir, consts=FILE_CONSTS["quick"][1], shard=max(50, len(traces) // 16 + 1), spec="TraceSpec", heap="3g")
     return mcs, traces, jr
